@@ -4,6 +4,7 @@
 From Coq Require Import List ZArith Bool.
 Import ListNotations.
 From PS Require Import Recon.SSPOR Recon.SSPORProofs Guard.Guards Guard.GuardProofs.
+From PS Require Class.SSPOC Class.SSPOCProofs.
 Open Scope Z_scope.
 
 (* --- every value of the invalid classes is rejected with the stated exception class --- *)
@@ -90,6 +91,18 @@ Theorem C19_rejected_update_noop_partial : forall s v x,
   update_n_basis_modes s v x = (s, Some Recon.SSPOR.ValueError).
 Proof. exact update_rejected_early_noop. Qed.
 Print Assumptions C19_rejected_update_noop_partial.
+
+(* SSPOC machine (Class/SSPOC.v, every state): a rejected update_sensors - unfitted model, neither count nor threshold, more sensors
+   than there are, refit data of another width than the fitted weights - changes nothing, and the last of these IS rejected *)
+Theorem C19_sspoc_rejected_update_sensors_noop : forall s n t xy cnt s' e,
+  Class.SSPOC.update_sensors s n t xy cnt = (s', Some e) -> s' = s.
+Proof. exact Class.SSPOCProofs.rejected_update_sensors_noop. Qed.
+Print Assumptions C19_sspoc_rejected_update_sensors_noop.
+Theorem C19_sspoc_wrong_width_refit_rejected : forall s f n t d cnt,
+  Class.SSPOC.fitted s = Some f -> Class.SSPOC.d_width d <> Class.SSPOC.d_width (Class.SSPOC.f_data f) ->
+  Class.SSPOC.update_sensors s n t (Some d) cnt = (s, Some Class.SSPOC.ValueError).
+Proof. exact Class.SSPOCProofs.wrong_width_refit_rejected. Qed.
+Print Assumptions C19_sspoc_wrong_width_refit_rejected.
 
 (* what is missing from the _partial statement is false of the faithful model: a rejection that happens inside the
    re-fit triggered by update_n_basis_modes leaves a changed model behind (recorded as a known finding) *)
